@@ -47,7 +47,22 @@
 //! * `e :: T` is `parseAssertionExpr`: one cast after a simple expression (`a :: T :: U`
 //!   is an error, `-x :: T` is `-(x :: T)`, `a + b :: T` casts `b`).
 //! * `o:m<<T>>(x)` produces a plain `mcall` (the format has no slot for the instantiation).
-//! * Nesting limit: 200 levels (Lua 5.1 `LUAI_MAXCCALLS`) in both dialects.
+//! * Luau `const` declarations (`const x = 1`, `const function f() end`): the number of values
+//!   must equal the number of names unless the last value is a call or `...`.
+//! * Luau attributes (`@name`, `@[name args, ...]`) are accepted before `function`,
+//!   `local function` and function expressions; attribute names are not validated.
+//! * Type references allow a single `Prefix.Name`; union and intersection may not be mixed
+//!   without parentheses; a generic pack default must be a pack; defaults must be trailing.
+//! * Nesting limit: 200 levels (Lua 5.1 `LUAI_MAXCCALLS`) in both dialects (Luau's own limit
+//!   is 1000). Chains of right-associative operators (`a..b..c`, `a^b^c`) are folded
+//!   iteratively and do not count as nesting; note that the resulting *tree* is as deep as
+//!   the chain is long.
+//! * `parse` never overflows the stack: deeply nested input is re-parsed on a dedicated
+//!   64 MiB thread (see [`parser::parse_with_options`]).
+//! * Interpolated strings: empty literal segments are dropped from `interp.l` unless
+//!   [`ParseOptions::keep_empty_interp_segments`] is set.
+//! * [`ParseOptions::syntax_only`] disables the two context checks (loop control outside a
+//!   loop, `...` outside a vararg function) for input printed from arbitrary trees.
 
 pub mod json;
 pub mod lexer;
@@ -59,7 +74,7 @@ mod types;
 
 pub use lexer::{lex, Comment, LexError, TokKind, Token};
 pub use number::parse_number_literal;
-pub use parser::{parse, parse_with_options, ParseError, ParseOptions};
+pub use parser::{parse, parse_on_current_thread, parse_with_options, ParseError, ParseOptions};
 pub use strings::decode_short_string;
 
 #[derive(Debug, Clone, Copy, PartialEq, Eq, Hash)]
